@@ -69,8 +69,14 @@ Definition find_matching_key (kid alg : string) (keys : list jwk) : jwk + fmk_er
 
 (* what the JWKS endpoint answers to one download *)
 Inductive body := BadDoc | Doc (entries : list (option jwk)).
-  (* BadDoc: not a JSON object with a "keys" array.  An entry None is a key
-     the decoder skips (unknown kty / undecodable key). *)
+  (* Doc es: the body is exactly ONE well-formed JSON document, an object whose
+     "keys" member is an array; es = its elements, an entry None being a key
+     the decoder skips (unknown kty / undecodable key).  Size, other members,
+     duplicate kids do not matter.
+     BadDoc: everything else - not JSON, truncated, a well-formed document
+     followed by further bytes (second document, HTML, stray brackets), top-level
+     array / string / number / null, "keys" missing, null or not an array (a
+     lone JWK, an error object, {}). *)
 Inductive resp := TransportErr | Http (ok200 : bool) (b : body).
 
 Fixpoint keep (es : list (option jwk)) : list jwk :=
